@@ -322,8 +322,8 @@ Proof.
   intros T ks r c Ht Hp. unfold predict in Hp.
   destruct (gc_fallback c); [discriminate|]. rewrite Ht in Hp.
   set (o := genum_opts_of c) in *.
-  destruct (negb (go_disable_traits o) && has_any (gc_shapes c) err_shapes); [discriminate|].
-  destruct (go_ci o && mem "ci_collision" (gc_shapes c)); [discriminate|].
+  destruct (negb (go_disable_traits o) && has_any (eff_shapes c) err_shapes); [discriminate|].
+  destruct (go_ci o && mem "ci_collision" (eff_shapes c)); [discriminate|].
   destruct (negb (go_disable_traits o) && has_any (gc_shapes c) c12_shapes); [discriminate|].
   destruct (genum_ok T o) eqn:Eok; cbn [negb] in Hp; [|discriminate].
   split; [reflexivity|]. intros Hd n Hin. rewrite Hd in Hp. cbn [negb andb] in Hp.
@@ -521,4 +521,32 @@ Lemma fallback_violation : forall T ks r c, gc_fallback c = true ->
 Proof.
   intros T ks r c Hf. unfold gb_judge, verdict, spec_ok, model_eq, predict. rewrite Hf.
   destruct (gc_obs c); cbn; split; intros H; try discriminate; try reflexivity.
+Qed.
+
+(* ---------------------------------------------------------------- scope check of the bodies *)
+Lemma uses_ok_spec : forall tbl promoted uses e,
+  uses_ok tbl promoted uses e = true ->
+  forall u, In u uses -> use_possible e u = true -> use_declared tbl promoted e u = true.
+Proof.
+  intros tbl promoted uses e H u Hu Hp. unfold uses_ok in H.
+  rewrite forallb_forall in H. specialize (H u Hu). rewrite Hp in H. exact H.
+Qed.
+
+Theorem uses_declared_any_table : forall T ug ue us,
+  uses_sweep T ug ue us = true ->
+  (forall o u, In u ug -> use_possible (genum_env o) u = true ->
+               use_declared (tt_genum T) [] (genum_env o) u = true)
+  /\ (forall skip u, In u ue -> use_possible (gerror_env skip) u = true ->
+                     use_declared (tt_gerror T) (tt_promoted T) (gerror_env skip) u = true)
+  /\ (forall u, In u us -> use_possible (fun _ => false) u = true ->
+                use_declared (tt_gsort T) [] (fun _ => false) u = true).
+Proof.
+  intros T ug ue us H. unfold uses_sweep in H.
+  apply andb_prop in H. destruct H as [H Hs]. apply andb_prop in H. destruct H as [Hg He].
+  rewrite forallb_forall in Hg, He. repeat split.
+  - intros o u Hu Hp. apply (uses_ok_spec _ _ ug); [|exact Hu|exact Hp].
+    apply Hg. apply all_genum_opts_complete.
+  - intros skip u Hu Hp. apply (uses_ok_spec _ _ ue); [|exact Hu|exact Hp].
+    apply He. apply bools_complete.
+  - intros u Hu Hp. exact (uses_ok_spec _ _ us _ Hs u Hu Hp).
 Qed.
